@@ -7,7 +7,7 @@ path in a per-execution scratch directory (removed afterwards), stdout captured.
 Space (product enumeration, no sampling):
   documents   hand-built minimal interchanges + every `source` of pyx12.test.x12testdata.datafiles,
               each as shipped ('asis') and with every count field set to the reference recount ('clean')
-  layouts     as shipped | no line breaks | LF after every terminator | CRLF after every terminator
+  layouts     as shipped | no line breaks | LF after every terminator | CRLF after every terminator | blank fill after every terminator
   delimiters  as shipped | foreign triples (character-for-character substitution)
   defects     on the clean base: IEA01/GE01/SE01/HL01 in {true+1, true-1, 'x', '', zero-padded true} at every
               trailer / HL, singly and in pairs; HL01 of a set shifted / swapped / reversed
@@ -38,7 +38,7 @@ OPTS = [(e, f, d) for e in (0, 1) for f in (0, 1) for d in DESTS]
 STD = ('~', '*', ':')
 FOREIGN_Q = [('!', '|', '>'), ('\n', '|', '>')]
 FOREIGN_T = [('!', '|', '>'), ('\n', '|', '>'), ('\x1c', '\x1d', '\x1e'), ('+', '&', '\\')]
-LAYOUTS = ('orig', 'none', 'lf', 'crlf')
+LAYOUTS = ('orig', 'none', 'lf', 'crlf', 'fill')      # fill: blank-filled fixed-length records (three blanks after every terminator, no line break)
 
 
 # ----- corpus ---------------------------------------------------------------------------------------
@@ -59,7 +59,8 @@ def mini(n_isa, n_gs, n_st, hl, icvn='00401', quirk=None):
                     body.append('HL*%d*%s*2%d*%d' % (h, parents[h], h, 1 if h < hl else 0))
                     body.append('NM1*85*2*N%d' % h)
                 if quirk == 'shapes':
-                    body += ['CLM*A*1***11:B:1*Y', 'REF*A*B**', ' REF*C*D', 'SV1*HC:99213::*1*UN', 'AAA*']
+                    body += ['CLM*A*1***11:B:1*Y', 'REF*A*B**', ' REF*C*D', 'SV1*HC:99213::*1*UN', 'AAA*',
+                             'N3*100 MAIN ST ', ' NM1*41*2*ACME *****46*TGJ23 ', '  REF*E*F :G ']
                 elif quirk == 'hl2':
                     body += ['HL*%d*9*22*0' % (hl + 1)]
                 st = '%04d' % (1 if quirk == 'dupst' else s)
@@ -127,12 +128,15 @@ class Doc(object):
         seg, ele, sub = self.d
         out = []
         for i, (nl, sp, f) in enumerate(self.pieces):
-            if layout != 'orig':
+            if layout == 'fill':
+                nl = ''
+                sp = sp if (i == 0 or sp) else '   '
+            elif layout != 'orig':
                 nl = '' if (i == 0 or layout == 'none') else ('\n' if layout == 'lf' else '\r\n')
             out.append(nl + sp + ele.join(f) + seg)
         tail = self.tail
         if layout != 'orig':
-            tail = '' if layout == 'none' else ('\n' if layout == 'lf' else '\r\n')
+            tail = '' if layout in ('none', 'fill') else ('\n' if layout == 'lf' else '\r\n')
         t = ''.join(out) + tail
         if delims and tuple(delims) != self.d:
             t = redelim(t, self.d, tuple(delims))
